@@ -620,6 +620,22 @@ Proof.
   - trivial.
 Qed.
 
+(* the boolean violation test is sound *)
+Lemma viol_b_sound st : viol_b H st = true -> ~ Inv st.
+Proof.
+  unfold viol_b. intros E HI. apply existsb_exists in E as (s & Hs & E).
+  apply In_nth_error in Hs as (j & Hj).
+  unfold store_viol_b in E. apply existsb_exists in E as (k & _ & E).
+  destruct (alookup k (s_objs s)) as [o|] eqn:Eo; [|discriminate].
+  destruct (HI j s k o Hj Eo) as [Hn Hm].
+  apply orb_true_iff in E as [E|E].
+  - unfold name_bad_b in E. apply negb_true_iff in E.
+    unfold named_ok in Hn. destruct (is_dir_oid k).
+    + destruct Hn as [Hn _]. rewrite <- Hn, list_N_eqb_refl in E. discriminate.
+    + rewrite <- Hn, list_N_eqb_refl in E. discriminate.
+  - destruct (s_cls s); [|discriminate]. rewrite (Hm eq_refl) in E. discriminate.
+Qed.
+
 (* the algorithm (and position) of every store is fixed for the whole history *)
 Theorem C01_step_alg st o j : Inv st -> WfOp st o -> alg_at (step H st o) j = alg_at st j.
 Proof. intros HI Hw. apply (step_Good st o HI Hw). Qed.
